@@ -15,7 +15,7 @@ CLAIMED['C15'] = dict(category='proof', technique='contract-based deductive veri
     text='children/external_references/contains_reference/contains_self_reference/contains_definition of all 11 expression classes, iterate() (pre-order, loop invariant + stack lemma), predicate- and event-level queries, aliases() and simple_events() are proved equal to spec functions written from the statement (free references, occurrences, binders, source order). The own-field check (check_some_self_references) is covered by a bounded stand-in only.',
     note='fields hold values of their declared classes; generators evaluated eagerly (pure); pyvc translation; z3/cvc5', ref='DESIGN.md section 6, C15')
 CLAIMED['C02'] = dict(category='proof', technique='contract-based deductive verification of the attrs-generated HplProperty.__init__ -> sanity_check chain against the acceptance rule sane(); search loops summarised; z3',
-    text='constructing HplProperty(scope, pattern) raises HplSanityError iff not sane(scope, pattern) - clauses (i) and (ii) of the statement - for every scope kind, pattern kind and (possibly disjunctive) events, via contracts on _check_refs_defined/_check_duplicates and the C15 event contracts. Clauses (iii) duplicate channel and (iv) quantifier hygiene are decided by other constructors and are covered here by a bounded grid only.',
+    text='constructing HplProperty(scope, pattern) raises HplSanityError iff not sane(scope, pattern) - clauses (i) and (ii) of the statement - for every scope kind, pattern kind and (possibly disjunctive) events, via contracts on _check_refs_defined/_check_duplicates and the C15 event contracts. Clause (iii) duplicate channel: HplEventDisjunction construction raises iff a channel repeats (loop invariant). Clause (iv) quantifier hygiene: HplQuantifier construction raises HplSanityError only if hygiene is broken and returns only hygienic quantifiers (validators walking iterate() under loop invariants). Bounded grids kept beside both.',
     note='attrs-generated __init__ source from linecache; C15 contracts; reading of clause (ii) over event positions', ref='DESIGN.md section 6, C02')
 CLAIMED['C11'] = dict(category='other', technique='contract-based deductive verification (pyvc + z3/cvc5) of canonical_form against the decomposition spec, on inputs of fixed disjunction width with symbolic leaves; bounded native grid for metadata/idempotence',
     text='canonical_form(P) == canon(P): which positions are split, activator-major source order, identity for unsplit inputs, every other field unchanged - proved for symbolic simple events, aliases, predicates and time bounds on inputs whose disjunction widths are fixed per task (bounded in width). Metadata copy, idempotence and constructibility of outputs: bounded grid. Open finding F13.',
@@ -28,7 +28,7 @@ CLAIMED['C17'] = dict(category='other', technique='contract-based deductive veri
     note='schema walk not under contract; A-REAL for numeric bounds', ref='DESIGN.md section 6, C17')
 _T = 'contract-based deductive verification (pyvc: symbolic execution of the attrs-generated constructors, validators, converters and cast() from source; z3/cvc5) + assumed contracts on 3 constructors + bounded native tier'
 CLAIMED['C03'] = dict(category='other', technique=_T,
-    text='The node-level invariant wt (non-empty type set within the kind, operands inside parameter types, declared result type, equal type sets on both sides of =/!=, bound variable used at the element type) is proved to hold for the results of 8 expression constructors and of cast() on all 11 classes, given well-typed children. HplSet/HplFunctionCall/HplQuantifier constructors and the predicate-level same-reference check are under assumed contracts evaluated natively; parser and rewriting outputs are checked by a bounded stand-in. Open finding F16.',
+    text='The node-level invariant wt (non-empty type set within the kind, operands inside parameter types, declared result type, equal type sets on both sides of =/!=, bound variable used at the element type) is proved to hold for the results of 9 expression constructors - including the quantifier constructor, whose validators walk iterate() (two loops under invariants; mentions/binds/uses_ok characterised as folds over preorder by induction lemmas) - and of cast() on all 11 classes, given well-typed children. HplSet/HplFunctionCall constructors and the predicate-level same-reference check are under assumed contracts evaluated natively; parser and rewriting outputs are checked by a bounded stand-in. Open finding F16.',
     note='assumed constructor contracts; A-LARK-CALL; built-in operator/function tables read live', ref='DESIGN.md section 6, C03')
 CLAIMED['C04'] = dict(category='other', technique=_T,
     text='Completeness side: the TypeError conditions proved for the constructors and cast() are exact (raised only for a disjoint operand/parameter pair), so children whose type sets contain their schema types are never rejected and narrowing (intersection) keeps the schema type inside. The schema-assignment argument and the parser link are bounded (type-directed generation, schema check).',
